@@ -573,8 +573,14 @@ def run_bars(case):
         return
     tags = {"f18": f18_reasons(norm, case["meter"]), "call": "play_Bars"}
     seq, observers = rig()
-    ret = seq.play_Bars([b[0] for b in bars], case["channels"], case["bpm"])
     S.trans(1)
+    try:
+        ret = seq.play_Bars([b[0] for b in bars], case["channels"], case["bpm"])
+    except (engine.StepBudgetExceeded, engine.HarnessError):
+        raise
+    except Exception as e:                                         # noqa -- reported with the tags of the program
+        S.problem("play_Bars raised", "no exception", "%s: %s" % (type(e).__name__, e), tags=tags)
+        return
     S.count("parallel_programs_played")
     if "different onsets" in tags["f18"]:
         S.count("unequal_rhythm_programs")
@@ -624,6 +630,17 @@ def gen_bars_triples(shard):
     for c in pats:
         yield {"voices": [voice_bar(a, "A", 0), voice_bar(b, "B", 1), voice_bar(c, "C", 2)],
                "meter": list(cfg["meter"]), "bpm": 120, "channels": [1, 2, 9]}
+
+
+def gen_bars_quads(shard):
+    setname, ia, ib = shard
+    cfg = PAR_CFG[setname]
+    pats = cfg["patterns"]
+    a, b = pats[ia], pats[ib]
+    for c in pats:
+        for d in pats:
+            yield {"voices": [voice_bar(a, "B", 0), voice_bar(b, "A", 1), voice_bar(c, "C", 2), voice_bar(d, "A", 3)],
+                   "meter": list(cfg["meter"]), "bpm": 150, "channels": [1, 2, 9, 15]}
 
 
 def gen_bars_tempo(shard):
@@ -715,19 +732,24 @@ def run_tracks(case):
                   for vi in range(len(tracks))]
     tags = {"f18": f18_reasons(norm, (2, 4)), "call": "play_Tracks"}
     seq, observers = rig()
-    if case["via"] == "composition":
-        comp = Composition()
-        for t in tracks:
-            comp.add_track(t)
-        site = "play_Composition"
-        if channels is None:
-            ret = seq.play_Composition(comp, bpm=case["bpm"])
-        else:
-            ret = seq.play_Composition(comp, channels, case["bpm"])
-    else:
-        site = "play_Tracks"
-        ret = seq.play_Tracks(tracks, channels, case["bpm"])
     S.trans(1)
+    site = "play_Composition" if case["via"] == "composition" else "play_Tracks"
+    try:
+        if case["via"] == "composition":
+            comp = Composition()
+            for t in tracks:
+                comp.add_track(t)
+            if channels is None:
+                ret = seq.play_Composition(comp, bpm=case["bpm"])
+            else:
+                ret = seq.play_Composition(comp, channels, case["bpm"])
+        else:
+            ret = seq.play_Tracks(tracks, channels, case["bpm"])
+    except (engine.StepBudgetExceeded, engine.HarnessError):
+        raise
+    except Exception as e:                                         # noqa -- reported with the tags of the program
+        S.problem("%s raised" % site, "no exception", "%s: %s" % (type(e).__name__, e), tags=tags)
+        return
     S.count("track_sets_played")
     S.count("instrument_changes_expected", len(tracks))
     if len(set(len(v) for v in norm)) > 1:
@@ -987,18 +1009,22 @@ def explore(ctx):
                       "cycles": ctx.pick([("A", "A"), ("B", "C"), ("C", "B")], all_cycles)}
     PAR_CFG["p44"] = {"patterns": p44, "meter": (4, 4), "same_keys": False,
                       "cycles": ctx.pick([("B", "A")], [("A", "A"), ("B", "C"), ("C", "B"), ("B", "A")])}
-    PAR_CFG["t24"] = {"patterns": rhythm_patterns(R24, ctx.pick(2, 4), Fraction(1, 2)), "meter": (2, 4)}
+    PAR_CFG["t24"] = {"patterns": rhythm_patterns(R24, ctx.pick(2, 3), Fraction(1, 2)), "meter": (2, 4)}
+    PAR_CFG["q24"] = {"patterns": rhythm_patterns(R24, ctx.pick(1, 2), Fraction(1, 2)), "meter": (2, 4)}
     PAR_CFG["m24"] = {"patterns": rhythm_patterns(R24, ctx.pick(4, 5), Fraction(1, 2)), "meter": (2, 4),
                       "cycles": ctx.pick([("A", "B")], [("A", "B"), ("C", "A")]), "bpms": ctx.pick([60], [60, 240])}
     if ctx.want("bars"):
         ctx.bound("bars", {"2/4 patterns over 4,8,6,12 (<=6 entries, every prefix)": len(p24),
                            "4/4 patterns over 2,4,8 (<=6 entries, every prefix)": len(p44),
                            "kind cycles per pair (2/4)": PAR_CFG["p24"]["cycles"], "kind cycles per pair (4/4)": PAR_CFG["p44"]["cycles"],
-                           "triples: 2/4 patterns": len(PAR_CFG["t24"]["patterns"])})
+                           "triples: 2/4 patterns": len(PAR_CFG["t24"]["patterns"]),
+                           "quadruples: 2/4 patterns": len(PAR_CFG["q24"]["patterns"])})
         ctx.product("bars", [("p24", i) for i in range(len(p24))] + [("p44", i) for i in range(len(p44))], gen_bars_single)
         ctx.product("bars", [("p24", i) for i in range(len(p24))] + [("p44", i) for i in range(len(p44))], gen_bars_pairs)
         nt = len(PAR_CFG["t24"]["patterns"])
         ctx.product("bars", [("t24", i, j) for i in range(nt) for j in range(nt)], gen_bars_triples)
+        nq = len(PAR_CFG["q24"]["patterns"])
+        ctx.product("bars", [("q24", i, j) for i in range(nq) for j in range(nq)], gen_bars_quads)
     if ctx.want("bars_tempo"):
         ctx.bound("bars_tempo", {"2/4 patterns": len(PAR_CFG["m24"]["patterns"]), "cycles": PAR_CFG["m24"]["cycles"],
                                  "carried bpm": PAR_CFG["m24"]["bpms"]})
@@ -1048,13 +1074,26 @@ def explore(ctx):
 
 
 # ---------------------------------------------------------------------------------------
-# fallback known-finding predicate (used only if the proposed play_Bars rewrite is not taken)
+# fallback known-finding predicates.  Two fixes are proposed (fixes_proposed/c18_*.diff); these predicates exist
+# only so that a defect can be recorded instead, should a fix not be taken.  They look at nothing but the tags the
+# runner computed from the *program* (never at what was observed), and never match observer-delivery problems.
 # ---------------------------------------------------------------------------------------
+_SCHEDULER_REASONS = {"different onsets", "bar not full", "empty bar", "float ticks do not sum to the bar length"}
+
+
+def _f18(rec):
+    if rec.get("clause") not in ("bars", "bars_tempo", "tracks") or "events received" in rec.get("site", ""):
+        return set()
+    return set((rec.get("tags") or {}).get("f18") or [])
+
+
 def _known_play_bars_scheduler(rec):
-    tags = rec.get("tags") or {}
-    if rec.get("clause") not in ("bars", "bars_tempo", "tracks"):
-        return False
-    return bool(tags.get("f18")) and "events received" not in rec.get("site", "")
+    return bool(_f18(rec) & _SCHEDULER_REASONS)
 
 
-KNOWN = {"play_bars_scheduler": _known_play_bars_scheduler}
+def _known_play_tracks_unequal_bar_counts(rec):
+    return "tracks with different numbers of bars" in _f18(rec)
+
+
+KNOWN = {"play_bars_scheduler": _known_play_bars_scheduler,
+         "play_tracks_unequal_bar_counts": _known_play_tracks_unequal_bar_counts}
